@@ -216,6 +216,9 @@ func (fr *Frame) execInstr(in ssa.Instruction, st *State, r string) {
 			fr.execCall(nil, d.Common(), st, r)
 		}
 	case *ssa.Return:
+		if fr.splitReturn[x.Block()] {
+			return
+		}
 		var vals []string
 		for _, res := range x.Results {
 			vals = append(vals, fr.val(res)...)
